@@ -23,6 +23,7 @@ package main
 
 import (
 	"bytes"
+	"crypto/ed25519"
 	"crypto/sha256"
 	"encoding/binary"
 	"encoding/hex"
@@ -43,6 +44,7 @@ import (
 	"github.com/dappledger/AnnChain/eth/common"
 	etypes "github.com/dappledger/AnnChain/eth/core/types"
 	"github.com/dappledger/AnnChain/eth/rlp"
+	crypto "github.com/dappledger/AnnChain/gemmill/go-crypto"
 	wire "github.com/dappledger/AnnChain/gemmill/go-wire"
 	"github.com/dappledger/AnnChain/gemmill/modules/verifhook"
 	gtypes "github.com/dappledger/AnnChain/gemmill/types"
@@ -57,12 +59,13 @@ const prop = "C06"
 var (
 	keyA = evmdrive.Key("c06-A") // contract deployer / caller
 	keyB = evmdrive.Key("c06-B") // key-value writer
+	keyC = evmdrive.Key("c06-C") // submitter of administrative requests (kind valset)
 )
 
 func counterAddr() common.Address { return evmdrive.ContractAddr(evmdrive.Addr(keyA), 0) }
 
 type plan struct {
-	Kind       string `json:"kind"` // empty | evm | kv | mixed
+	Kind       string `json:"kind"` // empty | evm | kv | mixed | valset (= mixed + one validator-set change per block)
 	ArmAt      int64  `json:"arm_at"`
 	CrashAt    int64  `json:"crash_at"`     // k-th durable write after arming (0 = never)
 	CrashAtAll int64  `json:"crash_at_all"` // k-th durable write counted from process start (second-level crash)
@@ -102,7 +105,11 @@ func childRun(args []string) {
 		os.Exit(5)
 	}
 	logf("STARTED height %d", n.Angine.Height())
-	nA, nB := appNonce(n, evmdrive.Addr(keyA)), appNonce(n, evmdrive.Addr(keyB))
+	nA, nB, nC := appNonce(n, evmdrive.Addr(keyA)), appNonce(n, evmdrive.Addr(keyB)), appNonce(n, evmdrive.Addr(keyC))
+	var selfPriv ed25519.PrivateKey
+	if pk, ok := n.Angine.PrivValidator().GetPrivKey().(crypto.PrivKeyEd25519); ok {
+		selfPriv = ed25519.PrivateKey(pk[:])
+	}
 	kvN := 0
 	submit := func() {
 		for i := 0; i < pl.PerBlock; i++ {
@@ -110,7 +117,10 @@ func childRun(args []string) {
 			switch {
 			case pl.Kind == "empty":
 				return
-			case pl.Kind == "kv" || (pl.Kind == "mixed" && i%2 == 1):
+			case pl.Kind == "valset" && i == 0:
+				tx = adminTx(nC, selfPriv)
+				nC++
+			case pl.Kind == "kv" || ((pl.Kind == "mixed" || pl.Kind == "valset") && i%2 == 1):
 				kvN++
 				tx = evmdrive.KVTx(keyB, nB, []byte(fmt.Sprintf("c06-key-%d", kvN%3)), []byte(fmt.Sprintf("v-%d-%d", nB, kvN)))
 				nB++
@@ -192,6 +202,10 @@ type dump struct {
 	NonceB      uint64      `json:"nonce_b"`
 	Counter     string      `json:"counter"`
 	KVTotals    []uint32    `json:"kv_totals"`
+	NonceC      uint64      `json:"nonce_c"`
+	Vals        setView     `json:"validators,omitempty"`
+	LastVals    setView     `json:"last_validators,omitempty"`
+	SelfPub     string      `json:"self_pub,omitempty"`
 	Error       string      `json:"error,omitempty"`
 }
 
@@ -270,7 +284,7 @@ func appQueriesNoContract(app interface {
 		rlp.DecodeBytes(r.Data, &v)
 		return v
 	}
-	d.NonceA, d.NonceB = nonce(evmdrive.Addr(keyA)), nonce(evmdrive.Addr(keyB))
+	d.NonceA, d.NonceB, d.NonceC = nonce(evmdrive.Addr(keyA)), nonce(evmdrive.Addr(keyB)), nonce(evmdrive.Addr(keyC))
 	for i := 0; i < 3; i++ {
 		load := make([]byte, 8)
 		binary.BigEndian.PutUint32(load[0:4], 1)
@@ -298,6 +312,8 @@ func childSettle(args []string) {
 		bs := n.Angine.VerifBlockStore()
 		d.StoreHeight = bs.Height()
 		d.StateHeight, d.StateApp, d.StateRcpt = st.LastBlockHeight, hex.EncodeToString(st.AppHash), hex.EncodeToString(st.ReceiptsHash)
+		d.Vals, d.LastVals = viewOf(st.Validators), viewOf(st.LastValidators)
+		d.SelfPub = hex.EncodeToString(crypto.GetNodePubkeyBytes(n.Angine.PrivValidator().GetPubKey()))
 		info := n.Application.Info()
 		d.AppHeight, d.AppHash = info.LastBlockHeight, hex.EncodeToString(info.LastBlockAppHash)
 		d.Blocks = dumpBlocks(func(h int64) (*gtypes.Block, *gtypes.Commit) { return bs.LoadBlock(h), bs.LoadSeenCommit(h) }, d.StoreHeight)
@@ -317,6 +333,9 @@ type reexecOut struct {
 	Mismatch string   `json:"mismatch"`
 	App      []string `json:"app"`
 	Rcpt     []string `json:"rcpt"`
+	Vals     setView  `json:"validators,omitempty"`      // the set an uncrashed replica holds after the last block
+	LastVals setView  `json:"last_validators,omitempty"` // ... and the one before it
+	Genesis  setView  `json:"genesis_validators,omitempty"`
 	Error    string   `json:"error,omitempty"`
 }
 
@@ -334,11 +353,22 @@ func childReexec(args []string) {
 			out.Error = err.Error()
 		} else {
 			H := st.Store.Height()
+			var vr *valsetReplica
+			if st.State != nil && st.State.GenesisDoc != nil {
+				vr = newValsetReplica(st.State.GenesisDoc) // the real plugin behind the 0xfe precompile, as in the node
+				out.Genesis = viewOf(vr.cur)
+			}
 			for h := int64(1); h <= H; h++ {
 				blk := st.Store.LoadBlock(h)
 				if _, err := app.OnExecute(h, 0, blk); err != nil {
 					out.Error = fmt.Sprintf("execute %d: %v", h, err)
 					break
+				}
+				if vr != nil {
+					if err := vr.endBlock(blk); err != nil {
+						out.Error = fmt.Sprintf("end block %d: %v", h, err)
+						break
+					}
 				}
 				c, err := app.OnCommit(h, 0, blk)
 				if err != nil {
@@ -362,6 +392,9 @@ func childReexec(args []string) {
 			}
 			if out.Error == "" && H >= 1 {
 				appQueries(app, &out.Queries)
+			}
+			if vr != nil {
+				out.Vals, out.LastVals = viewOf(vr.cur), viewOf(vr.last)
 			}
 			app.Close()
 		}
@@ -499,14 +532,21 @@ type point struct {
 func runPoint(run *lib.Run, base string, t *template, pt point, idx int) {
 	dir := filepath.Join(base, fmt.Sprintf("p%d", idx))
 	os.MkdirAll(dir, 0755)
+	if os.Getenv("VERIF_C06_KEEP") != "" {
+		defer exec.Command("cp", "-r", dir, fmt.Sprintf("/tmp/c06-kept-%s-%d-%d", pt.kind, pt.k, idx)).Run()
+	}
 	defer os.RemoveAll(dir)
 	rt := filepath.Join(dir, "rt")
 	copyDir(t.dir, rt)
 	p := port()
 	ps := strconv.Itoa(p)
 	run.Eval()
+	var ctx = map[string]interface{}{} // what was observed so far (events, heights), added to every witness
 	witness := func(extra map[string]interface{}) map[string]interface{} {
 		m := map[string]interface{}{"kind": pt.kind, "crash_at_write": pt.k, "counting_only_sites": pt.filter, "second_crash_at_write": pt.k2, "seed": lib.Seed()}
+		for k, v := range ctx {
+			m[k] = v
+		}
 		for k, v := range extra {
 			m[k] = v
 		}
@@ -540,6 +580,8 @@ func runPoint(run *lib.Run, base string, t *template, pt point, idx int) {
 			}
 		}
 	}
+	ctx["crash_site"] = site
+	ctx["events_before_crash"] = ev1
 	run.Count("crash_points_reached", 1)
 	run.Count("crash_site_"+site, 1)
 	run.Nontrivial(fmt.Sprintf("%s/%s%d/%d", pt.kind, pt.filter, pt.k, pt.k2))
@@ -554,6 +596,7 @@ func runPoint(run *lib.Run, base string, t *template, pt point, idx int) {
 		run.Violation("stores-unreadable-after-crash:"+site, fmt.Sprintf("crash before write %d (%s): the block store / state cannot be opened: %s", pt.k, site, pm.Error), witness(nil))
 		return
 	}
+	ctx["post_mortem_heights_store_app_state"] = []int64{pm.StoreHeight, pm.AppHeight, pm.StateHeight}
 	// 3. recovery run (optionally crashing again)
 	target := pm.StoreHeight + 2
 	pl2 := plan{Kind: pt.kind, StopAt: target, PerBlock: 3, CrashAtAll: pt.k2}
@@ -586,6 +629,7 @@ func runPoint(run *lib.Run, base string, t *template, pt point, idx int) {
 		r2 = runProc(dir, 3*time.Minute, env2, "run", rt, ps, filepath.Join(dir, "plan3.json"), filepath.Join(dir, "events3.log"))
 		ev2 = append(ev2, readEvents(filepath.Join(dir, "events3.log"))...)
 	}
+	ctx["events_after_restart"] = ev2
 	if r2.timedOut {
 		run.Inconclusive(fmt.Sprintf("point %s/%d (%s): recovery run hit the watchdog", pt.kind, pt.k, site))
 		return
@@ -612,6 +656,16 @@ func runPoint(run *lib.Run, base string, t *template, pt point, idx int) {
 		run.Violation("recovery-fails-on-second-restart:"+panicSiteRe(rs.out), fmt.Sprintf("crash before write %d (%s): building the node again failed: %s %s", pt.k, site, fin.Error, tail(rs.out, 800)), witness(nil))
 		return
 	}
+	{
+		f2 := fin
+		f2.Blocks = nil
+		ctx["after_recovery"] = f2
+		var hs []string
+		for _, b := range fin.Blocks {
+			hs = append(hs, fmt.Sprintf("%d:%s app=%s txs=%d", b.H, b.Hash[:8], b.AppHash, len(b.Txs)))
+		}
+		ctx["recovered_chain"] = hs
+	}
 	if fin.StoreHeight != fin.StateHeight || fin.StoreHeight != fin.AppHeight {
 		run.Violation("heights-disagree-after-recovery", fmt.Sprintf("crash before write %d (%s): after recovery block store %d, state %d, application %d", pt.k, site, fin.StoreHeight, fin.StateHeight, fin.AppHeight), witness(map[string]interface{}{"final": fin}))
 		return
@@ -631,7 +685,10 @@ func runPoint(run *lib.Run, base string, t *template, pt point, idx int) {
 	// exactly-once from the chain's content
 	model := map[common.Address]uint64{}
 	incs, kvs := uint64(0), map[string]uint32{}
+	selfPub, _ := hex.DecodeString(fin.SelfPub)
+	var adminNonces [][]uint64 // per block: the nonces of the administrative requests it applies
 	for _, b := range fin.Blocks {
+		adminNonces = append(adminNonces, nil)
 		for _, hx := range b.Txs {
 			raw, _ := hex.DecodeString(hx)
 			tx := new(etypes.Transaction)
@@ -643,6 +700,9 @@ func runPoint(run *lib.Run, base string, t *template, pt point, idx int) {
 				continue
 			}
 			model[from]++
+			if from == evmdrive.Addr(keyC) && tx.To() != nil && *tx.To() == precompFE {
+				adminNonces[len(adminNonces)-1] = append(adminNonces[len(adminNonces)-1], tx.Nonce())
+			}
 			if bytes.HasPrefix(tx.Data(), ctypes.KVTxType) {
 				var kv ctypes.KV
 				if rlp.DecodeBytes(tx.Data()[len(ctypes.KVTxType):], &kv) == nil {
@@ -653,8 +713,8 @@ func runPoint(run *lib.Run, base string, t *template, pt point, idx int) {
 			}
 		}
 	}
-	if fin.NonceA != model[evmdrive.Addr(keyA)] || fin.NonceB != model[evmdrive.Addr(keyB)] {
-		run.Violation("nonce-not-exactly-once", fmt.Sprintf("crash before write %d (%s): nonces A=%d B=%d, the chain contains %d / %d applied txs", pt.k, site, fin.NonceA, fin.NonceB, model[evmdrive.Addr(keyA)], model[evmdrive.Addr(keyB)]), witness(map[string]interface{}{"final": fin}))
+	if fin.NonceA != model[evmdrive.Addr(keyA)] || fin.NonceB != model[evmdrive.Addr(keyB)] || fin.NonceC != model[evmdrive.Addr(keyC)] {
+		run.Violation("nonce-not-exactly-once", fmt.Sprintf("crash before write %d (%s): nonces A=%d B=%d C=%d, the chain contains %d / %d / %d applied txs", pt.k, site, fin.NonceA, fin.NonceB, fin.NonceC, model[evmdrive.Addr(keyA)], model[evmdrive.Addr(keyB)], model[evmdrive.Addr(keyC)]), witness(map[string]interface{}{"final": fin}))
 		return
 	}
 	for i := 0; i < 3 && i < len(fin.KVTotals); i++ {
@@ -671,6 +731,7 @@ func runPoint(run *lib.Run, base string, t *template, pt point, idx int) {
 		run.Violation("re-execution-crashed:"+panicSiteRe(rr.out), fmt.Sprintf("crash before write %d (%s): re-executing the recovered chain crashed: %s", pt.k, site, tail(rr.out, 800)), witness(nil))
 		return
 	}
+	ctx["re_execution"] = map[string]interface{}{"app_hashes": re.App, "receipts_hashes": re.Rcpt, "validators": re.Vals, "last_validators": re.LastVals}
 	if re.Error != "" || re.Mismatch != "" {
 		run.Violation("re-execution-differs", fmt.Sprintf("crash before write %d (%s): %s %s", pt.k, site, re.Mismatch, re.Error), witness(map[string]interface{}{"final": fin}))
 		return
@@ -688,6 +749,38 @@ func runPoint(run *lib.Run, base string, t *template, pt point, idx int) {
 			return
 		}
 		run.Count("contract_storage_checks", 1)
+	}
+	// validator sets: recovered node = uncrashed replica (re-execution through the real plugin) = request model
+	if re.Vals != nil {
+		if !fin.Vals.equal(re.Vals) || !fin.LastVals.equal(re.LastVals) {
+			run.Violation("validator-set-differs-from-uncrashed-replica", fmt.Sprintf("%s workload, crash before write %d (%s): after recovery the state holds validators {%v} / last {%v} at height %d, a replica that executed the same chain without a crash holds {%v} / {%v}", pt.kind, pt.k, site, fin.Vals, fin.LastVals, fin.StoreHeight, re.Vals, re.LastVals), witness(map[string]interface{}{"final": fin, "admin_request_nonces_per_block": adminNonces}))
+			return
+		}
+		run.Count("validator_set_checks", 1)
+		if pt.kind == "valset" && re.Genesis != nil {
+			cur, last := setView{}, setView{}
+			for k, v := range re.Genesis {
+				cur[k] = v
+			}
+			changes := 0
+			for _, ns := range adminNonces {
+				last = setView{}
+				for k, v := range cur {
+					last[k] = v
+				}
+				for _, n := range ns {
+					modelApply(cur, n, selfPub)
+					changes++
+				}
+			}
+			run.Count("validator_set_requests_in_recovered_chains", int64(changes))
+			run.Distinct("validator_sets_at_recovery", cur.String())
+			if !cur.equal(re.Vals) || !last.equal(re.LastVals) {
+				run.Violation("validator-set-differs-from-request-model", fmt.Sprintf("valset workload, crash before write %d (%s): the chain's accepted requests give {%v} / last {%v}, the re-executing replica holds {%v} / {%v}", pt.k, site, cur, last, re.Vals, re.LastVals), witness(map[string]interface{}{"final": fin, "admin_request_nonces_per_block": adminNonces}))
+				return
+			}
+			run.Count("validator_set_model_checks", 1)
+		}
 	}
 	run.Count("reexecutions_reproduced", 1)
 	run.Count("blocks_reexecuted", int64(len(re.App)))
@@ -724,10 +817,13 @@ func main() {
 	run.Assume("crash = process death (SIGKILL) immediately before a durable write issued by the process; power loss / un-fsynced data is not modelled", "block composition depends on real timers, so ordinal k lands on different writes in different runs: evidence lists the write sites actually hit", "single validator; multi-validator crash recovery is covered with a mock application in C07", "validator-set-change blocks and the raft engine are not covered here")
 	base := lib.Scratch(prop)
 	defer os.RemoveAll(base)
-	kinds := []string{"empty", "evm", "kv", "mixed"}
+	kinds := []string{"empty", "evm", "kv", "valset"}
+	if lib.Thorough() {
+		kinds = append(kinds, "mixed")
+	}
 	tmpl := map[string]*template{}
 	var tm sync.Mutex
-	lib.Parallel(len(kinds), 4, func(i int) {
+	lib.Parallel(len(kinds), 5, func(i int) {
 		t := makeTemplate(run, base, kinds[i])
 		tm.Lock()
 		tmpl[kinds[i]] = t
@@ -774,6 +870,18 @@ func main() {
 				for k := int64(1); k <= f.n; k++ {
 					pts = append(pts, point{kind: kind, k: k, filter: f.site})
 				}
+			}
+		}
+	}
+	if only := os.Getenv("VERIF_C06_ONLY"); only != "" {
+		// replay aid: VERIF_C06_ONLY="kind:k:k2:site[,...]" runs just these crash points (VERIF_C06_KEEP=1 keeps their directories)
+		pts = nil
+		for _, f := range strings.Split(only, ",") {
+			a := strings.Split(f, ":")
+			if len(a) == 4 && tmpl[a[0]] != nil {
+				k, _ := strconv.ParseInt(a[1], 10, 64)
+				k2, _ := strconv.ParseInt(a[2], 10, 64)
+				pts = append(pts, point{kind: a[0], k: k, k2: k2, filter: a[3]})
 			}
 		}
 	}
